@@ -134,6 +134,9 @@ def run(ctx):
             got, sql = ("EXC", type(e).__name__, str(e)[:200]), None
         SC.judge(ctx, "sqlite", t, tx, cols, got, DEFECT_MODELS, {"alias": None, "sql": sql, "cols": list(cols), "visitor": "one shared instance"})
     ctx.layer("history-forward-reverse", filters=4 * len(hist), exhaustive=True, note="fresh visitor per filter, then one shared visitor instance")
+    nb = SC.boolean_operand_layer(ctx, _SqliteBackend())
+    ctx.layer("boolean-operands", filters=nb, exhaustive=True,
+              note="eq/ne between every ordered pair of boolean-valued lookups (comparisons, boolean functions, null tests, in-tests, the boolean field, literals), alone, negated and beside another clause; the bare boolean field as a predicate")
     nd = SC.deep_layer(ctx, _SqliteBackend(), (4, 6) if ctx.quick else (4, 6, 8))
     ctx.layer("pumped-towers", filters=nd, depths=[4, 6] if ctx.quick else [4, 6, 8], exhaustive=True,
               note="every self-composable constructor and every ordered pair of them, stacked on the left and right spine; long in-lists and and/or chains")
